@@ -23,6 +23,9 @@ CHECKS = {
     "C12": ("decision analysis by abstract interpretation with an uninterpreted scale conversion; E5 scale-domain rule",
             "Epoch eq/partial_cmp/cmp/min/max: both operands of the Duration comparison are in the same scale (one converted to the other's), and the result is exactly what the signed counts dictate, so ==, <, > are mutually exclusive; PartialOrd and Ord agree.",
             "3.C12"),
+    "C10": ("abstract interpretation of the reader over a template-string domain built from the writers' decoded fmt::Arguments templates; dispatch tables; constructor constants vs oracle",
+            "Decides the agreement of writer and reader grammars, not the value-level round trip: each writer's shape (both forms, nine scale names) read off its templates drives Epoch::from_str on every path to exactly one maybe_from_gregorian(field k = digit run k, written scale) + zero offset; the statement's input grammar (0-9 fraction digits x Z/+hh:mm/-hh:mm x optional suffix) yields ns = frac*10^(9-d), shift = -/+(hh:mm), scale = suffix|UTC; TimeScale Display->FromStr identity; serde delegation; JD/MJD/SEC dispatch table (27 cells) and day-count constructors relative to each scale's reference epoch. Not decided: compute_gregorian/maybe_from_gregorian being inverse for every instant, digit-level lexical/fmt correctness, float resolution.",
+            "3.C10"),
     "C13": ("panic-site reachability by abstract interpretation over MIR: string models with panic semantics, loops abstracted by havoc + Houdini-inferred inductive invariants, assume/guarantee contracts; SCC termination rule",
             "Every explicit panic, MIR Assert (bounds, overflow, division), unwrap/expect, str/slice indexing and out-of-range shift reachable from the ten string-parsing entry points is unreachable on every abstract path for an arbitrary UTF-8 input (only its length, known char boundaries and first char are tracked); every loop in the cone is driven by a finite iterator; out-of-range fields are rejected through Token::value_ok's table and dates are built only through maybe_from_gregorian.",
             "3.C13"),
